@@ -697,10 +697,10 @@ func (e *Engine) convert(f *frame, x *ssa.Convert) Val {
 		return e.intVal(to, t)
 	case isString(to) && isByteSlice(from):
 		// string(b): immutable snapshot of the bytes
-		ref := e.snapshotBytes(f.st, v)
+		ref := e.snapshotBytes(f.st, v, false)
 		return Val{T: to, C: []*smt.Term{ref, v.off(), v.ln()}}
 	case isByteSlice(to) && isString(from):
-		ref := e.snapshotBytes(f.st, Val{T: to, C: []*smt.Term{v.C[0], v.C[1], v.C[2], v.C[2]}})
+		ref := e.snapshotBytes(f.st, Val{T: to, C: []*smt.Term{v.C[0], v.C[1], v.C[2], v.C[2]}}, false)
 		return Val{T: to, C: []*smt.Term{ref, v.C[1], v.C[2], v.C[2]}}
 	}
 	if _, ok := to.Underlying().(*types.Pointer); ok {
@@ -724,7 +724,7 @@ func isByteSlice(t types.Type) bool {
 
 // snapshotBytes allocates a fresh array object equal to the slice's whole backing array (the
 // caller keeps the slice's offset).
-func (e *Engine) snapshotBytes(st *State, s Val) *smt.Term {
+func (e *Engine) snapshotBytes(st *State, s Val, ghost bool) *smt.Term {
 	// the whole backing array is copied (every component of the element type); the snapshot keeps
 	// the slice's offset
 	X := e.X
@@ -732,11 +732,22 @@ func (e *Engine) snapshotBytes(st *State, s Val) *smt.Term {
 	if !ok {
 		bail("verifSnap of %s", s.T)
 	}
-	ref := e.newRef(st)
+	// ghost snapshots (verifSnap) live in a region of their own (0x08000000..): they are neither older than
+	// the call nor "fresh" allocations of it, so no write set can ever contain them
+	var ref *smt.Term
+	if ghost {
+		ref = X.Const(uint64(0x08000000+e.snapN), 32)
+		e.snapN++
+	} else {
+		ref = e.newRef(st)
+	}
 	for _, c := range comps(sl.Elem()) {
 		key := "arr:" + typeKey(sl.Elem()) + "/" + c.Suffix
 		h := e.heap(st, key, c.Sort)
 		e.setHeap(st, key, X.Store(h, ref, X.Select(h, s.ref())))
+		if ghost {
+			e.snaps = append(e.snaps, snapRec{key, ref, X.Select(h, s.ref())})
+		}
 	}
 	return ref
 }
